@@ -24,7 +24,7 @@ ASSUMPTIONS = ["a NaN returned for an FP expression is judged by isNaN only (SMT
 
 
 def floors(tier):
-    return {"values_judged": 1500 if tier == "quick" else 20000, "values:bv": 600, "values:fp": 300, "values:str": 150, "fp_special_values_seen": 6, "bv_wide_values": 100}
+    return {"queries_with_linking_extra_constraint": 100 if tier == "quick" else 1500, "values_judged": 1500 if tier == "quick" else 20000, "values:bv": 600, "values:fp": 300, "values:str": 150, "fp_special_values_seen": 6, "bv_wide_values": 100}
 
 
 def plan(tier, seed):
@@ -161,6 +161,18 @@ def run_shard(spec, res):
             exprs = [build(x) for x in exprs_d]
         except claripy.errors.ClaripyZeroDivisionError:
             return
+        # a variable of its own, constrained on its own (a solver that splits by variable keeps it in a separate
+        # child): queries with extra constraints tie it to the expression asked about
+        link_d = None
+        if fam == "bv" and exprs_d and not _is_str(exprs_d[0]):
+            so0 = fpref.sort_of(exprs_d[0])
+            if so0[0] == "bv":
+                wl = so0[1]
+                link_d = ["bvs", f"lnk{wl}", wl]
+                kk = rng.choice(G.consts(wl, rng, 1))
+                link_con = rng.choice([["ule", link_d, ["bvv", kk, wl]], ["uge", link_d, ["bvv", kk, wl]], ["ne", link_d, ["bvv", kk, wl]], ["eq", ["and", link_d, ["bvv", 1, wl]], ["bvv", kk & 1, wl]]])
+                cons_d = cons_d + [link_con]
+                cons.append(build(link_con))
         try:
             s.add(cons)
             if not s.satisfiable():
@@ -196,6 +208,25 @@ def run_shard(spec, res):
                             if isinstance(v, int) and not isinstance(v, bool):
                                 v &= (1 << so[1]) - 1
                             judge_value(fam, cons_d, e_d, v, f"{op}(signed={signed})", sname)
+                    if link_d is not None and so[1] == link_d[2] and e_d is exprs_d[0]:
+                        # the same queries under an extra constraint that mentions the separately constrained variable
+                        x_d = rng.choice([["eq", e_d, link_d], ["ule", e_d, link_d], ["uge", e_d, link_d], ["eq", ["xor", e_d, link_d], ["bvv", 1 % (1 << so[1]), so[1]]]])
+                        x_ast = build(x_d)
+                        if s.satisfiable(extra_constraints=[x_ast]):
+                            hyp = [rterm(x_d)]
+                            res.count("queries_with_linking_extra_constraint")
+                            for v in s.eval(e, rng.choice([1, 2, 4]), extra_constraints=[x_ast]):
+                                judge_value(fam, cons_d + [x_d], e_d, v, "eval(extra)", sname)
+                            for op in ("min", "max"):
+                                signed = rng.random() < 0.5
+                                v = getattr(s, op)(e, signed=signed, extra_constraints=[x_ast])
+                                judge_value(fam, cons_d + [x_d], e_d, v & ((1 << so[1]) - 1), f"{op}(extra, signed={signed})", sname)
+                            for t in s.batch_eval([e, build(link_d)], 2, extra_constraints=[x_ast]):
+                                la, lb = literal_eq(e_d, rterm(e_d), t[0]), literal_eq(link_d, rterm(link_d), t[1])
+                                res.count("values_judged", 2)
+                                sat_, _m = z3ref.is_sat([rterm(x) for x in cons_d] + hyp + [la, lb], timeout_ms=8000)
+                                if sat_ is False:
+                                    res.violation({"kind": "model-value", "what": "batch_eval-tuple-not-jointly-feasible", "family": fam, "solver": sname, "constraints": cons_d + [x_d], "exprs": [e_d, link_d], "observed": repr(t), "op": "batch_eval(extra)"})
             except claripy.errors.UnsatError:
                 res.violation({"kind": "model-value", "what": "UnsatError-on-satisfiable", "family": fam, "solver": sname, "constraints": cons_d, "expr": e_d})
             except (claripy.errors.ClaripyZ3Error, claripy.errors.ClaripySolverInterruptError):
